@@ -920,19 +920,27 @@ impl Schedule {
                 || vehicle_type_of_provider_result.unwrap() != vehicle_type_of_receiver
             {
                 // vehicle types do not match, check if there are any service trip in the segment
-                if self
-                    .tour_of(provider)
-                    .unwrap()
-                    .sub_path(segment)
-                    .unwrap()
-                    .iter()
-                    .any(|n| {
-                        !self
-                            .network
-                            .compatible_with_vehicle_type(n, vehicle_type_of_receiver)
-                    })
-                {
+                let path = self.tour_of(provider).unwrap().sub_path(segment).unwrap();
+                if path.iter().any(|n| {
+                    !self
+                        .network
+                        .compatible_with_vehicle_type(n, vehicle_type_of_receiver)
+                }) {
                     return false;
+                }
+                // a start depot handed over to a receiver of another type needs capacity for
+                // that type (the provider's leaving frees none of it)
+                let first = path.first();
+                if self.network.node(first).is_start_depot()
+                    && self.tour_of(receiver).unwrap().start_depot() != Ok(first)
+                {
+                    let depot = self.network.get_depot_idx(first);
+                    if self
+                        .number_of_vehicles_of_same_type_spawned_at(depot, vehicle_type_of_receiver)
+                        >= self.network.capacity_of(depot, vehicle_type_of_receiver)
+                    {
+                        return false;
+                    }
                 }
             }
         }
